@@ -218,7 +218,11 @@ def _run_tasks(tasks, procs, timeout):
     ctx = mp.get_context('spawn')
     pending = list(enumerate(tasks))
     running, results = {}, {}
+    found_at = None  # when the first shard reported a violation: the others get a grace period, then are stopped
+    grace = float(os.environ.get('VERIF_GRACE', '90'))
     while pending or running:
+        if found_at is not None and time.time() - found_at > grace:
+            pending = []
         while pending and len(running) < procs:
             i, t = pending.pop(0)
             parent, child = ctx.Pipe(duplex=False)
@@ -245,6 +249,11 @@ def _run_tasks(tasks, procs, timeout):
             if got is None and time.time() - started > timeout:
                 p.kill()
                 got = dict(error=f'worker for shard {t[2]} exceeded the time budget of {timeout:.0f}s (inconclusive, not a violation)')
+            if got is None and found_at is not None and time.time() - found_at > grace:
+                p.kill()
+                got = dict(error=None, stopped_early=True)
+            if got is not None and got.get('violations') and found_at is None:
+                found_at = time.time()
             if got is not None:
                 base = dict(prop=t[1], shard=t[2], evaluations=0, nontrivial=[], classes={}, excluded={}, samples=[], violations=[],
                             sub={}, error=None, wall_s=time.time() - started)
@@ -292,7 +301,7 @@ def run_check(prop, tier, seed, replay=None, nshards=NSHARDS):
             tasks.append(('shard', prop, k, n, seed, tier, REPO, None))
 
     results = _run_tasks(tasks, int(os.environ.get('VERIF_PROCS', '16')),
-                         float(os.environ.get('VERIF_TASK_TIMEOUT', '900' if tier == 'quick' else '14400')))
+                         float(os.environ.get('VERIF_TASK_TIMEOUT', '600' if tier == 'quick' else '14400')))
 
     errors = [r for r in results if r['error']]
     evaluations = sum(r['evaluations'] for r in results)
